@@ -1332,7 +1332,7 @@ class FS(object):
                 True
 
         """
-        _dir_path = abspath(normpath(dir_path))
+        _dir_path = self.validatepath(dir_path)
         with self._lock:
             walker = walk.Walker(search="depth")
             gen_info = walker.info(self, _dir_path)
